@@ -18,6 +18,9 @@
     reflection, once with and once without the extra map injector's key: which fields
     are set, with which instance, the result, and that nothing after an aborting
     field is touched.
+    A third bound gives ONE factory two dependencies (every pair of required / optional
+    edges over 3 names with explicit factories, every failing subset, every request): a
+    tolerated failure followed by a sibling request, and cycles through the second edge.
     Thorough/quick: simulated deep behaviours over 3 names (cycles of length 3,
     6 definitions, 6 Gets)."""
 import json
@@ -52,6 +55,14 @@ def run(ctx):
     vlib.report_case_failures(ctx, mi, 'struct injection histories')
     ctx.cov['evaluations'] += mi['executed']
     ctx.cov['distinct_nontrivial'] += mi['executed']
+    # factories that request TWO dependencies (a tolerated failure followed by a sibling request, cycles through the second edge)
+    rw = ctx.tlc_must_pass('di', 'DI', 'MC_DI_wide.cfg', workers=8, timeout=1800, name='DI with a two-dependency factory (3 names with explicit factories, every graph, failing subset and request)')
+    shards_w, total_w, taken_w = vlib.shard_lines(ctx, rw['out'], NPROC, marker='\\"k\\":\\"di\\"', every=2 if q else 1, offset=ctx.seed)
+    mw = vlib.run_sharded(ctx, lambda p: ['dicases', '--in', p], shards_w)
+    ctx.cov['replay'].append(dict(what='API histories with a two-dependency factory', model_histories=total_w, executed=mw['executed'], failures=mw['failures_by_key']))
+    vlib.report_case_failures(ctx, mw, 'two-dependency factory histories')
+    ctx.cov['evaluations'] += mw['executed']
+    ctx.cov['distinct_nontrivial'] += mw['executed']
     rs = ctx.tlc('di', 'DI', 'MC_DI_sim.cfg', workers=1, timeout=900, simulate='num=%d' % (300 if q else 6000),
                  extra=['-depth', '60', '-seed', str(ctx.seed)], name='DI simulated behaviours, 3 names')
     if rs['error'] and 'timeout' not in str(rs['error']):
